@@ -87,23 +87,31 @@ def capture():
         tracer.compiler.python.compile = orig_compile
 
 
-def clear_caches():
+_WRAPPERS = None
+
+
+def clear_caches(rescan=False):
     """Drop einx's compiled-function caches so that the next call traces again (functools.cache objects
     reachable from the public einx functions' closures)."""
     import einx
     import gc
     import functools
+    global _WRAPPERS
+    if _WRAPPERS is None or rescan:
+        _WRAPPERS = []
+        for o in gc.get_objects():
+            try:
+                if isinstance(o, functools._lru_cache_wrapper):
+                    w = getattr(o, "__wrapped__", None)
+                    mods = [getattr(w, "__module__", None), getattr(getattr(w, "func", None), "__module__", None)]
+                    if any(isinstance(m, str) and m.startswith("einx") for m in mods):
+                        _WRAPPERS.append(o)
+            except Exception:
+                pass
     n = 0
-    for o in gc.get_objects():
-        try:
-            if isinstance(o, functools._lru_cache_wrapper):
-                w = getattr(o, "__wrapped__", None)
-                mods = [getattr(w, "__module__", None), getattr(getattr(w, "func", None), "__module__", None)]
-                if any(isinstance(m, str) and m.startswith("einx") for m in mods):
-                    o.cache_clear()
-                    n += 1
-        except Exception:
-            pass
+    for o in _WRAPPERS:
+        o.cache_clear()
+        n += 1
     return n
 
 
@@ -231,6 +239,12 @@ class GraphSerializer:
 
 
 def graph_to_json(g):
+    """`g` is a tracer.Graph, or -- when InlineGraph collapsed the whole graph into the function it wraps --
+    a plain tracer (e.g. `np.take`); the latter is serialised as {"inlined": <value>}."""
+    import einx._src.tracer as tracer
     s = GraphSerializer()
+    if not isinstance(g, tracer.Graph):
+        top = {"inlined": s.value(g)}
+        return {"top": top, "apps": s.apps, "tracers": s.tracers}, s.consts
     top = s.graph(g)
     return {"top": top, "apps": s.apps, "tracers": s.tracers}, s.consts
